@@ -2,7 +2,7 @@
    nothing sets it the stop-tag variants behave exactly like the plain ones.
    Statements only; the proofs are in Engine/Meaning.v. *)
 From Coq Require Import String List ZArith Bool Permutation.
-From GV Require Import Engine.IR Engine.Hand Engine.Spec Engine.Trace Engine.Sound Engine.TraceFacts Engine.Meaning.
+From GV Require Import Engine.IR Engine.Hand Engine.Spec Engine.Trace Engine.Sound Engine.TraceFacts Engine.Meaning Engine.TagFacts.
 Import ListNotations.
 
 (* 20. tag unset at the start and set by no rule: the stop-tag variant IS the plain variant
@@ -59,3 +59,29 @@ Theorem C14_mix_first_sets_tag : forall c r0 rest,
   call_err EExecuteMixModelWithStopTagDirect c = false.
 Proof. exact mix_first_sets_tag. Qed.
 Print Assumptions C14_mix_first_sets_tag.
+
+(* 27. THE TAG BELONGS TO THE RULES.  For every program of the IR — whatever T1 generates from engine/gengine.go: a statement
+       that writes the tag is no instruction of the IR — and every configuration (rule set, flags, names, layers, initial tag):
+       if the caller's tag is set when the call ends, it was set when the call started or a rule that the call RAN sets it.
+       The engine never writes the tag itself; "if the tag is never set" is therefore a statement about the rules alone. *)
+Theorem C14_the_engine_never_sets_the_tag : forall p c,
+  final_stop p c = true -> c_stop0 c = true \/ exists r, In r (executed (o_segs (run_prog p c))) /\ estop r = true.
+Proof. exact the_engine_never_sets_the_tag. Qed.
+Print Assumptions C14_the_engine_never_sets_the_tag.
+
+(*     for the entry points as they are: no tag-setting rule among the rules that ran, tag unset before => unset after *)
+Theorem C14_tag_stays_unset_when_no_rule_that_ran_sets_it : forall e c,
+  c_stop0 c = false -> (forall r, In r (ran e c) -> estop r = false) -> final_stop (hand e) c = false.
+Proof.
+  intros e c H0 Hr. destruct (final_stop (hand e) c) eqn:E; [|reflexivity].
+  destruct (the_engine_never_sets_the_tag _ _ E) as [A|[r [Hin Hs]]]; [congruence|].
+  unfold ran in Hr. rewrite (Hr r Hin) in Hs. discriminate.
+Qed.
+Print Assumptions C14_tag_stays_unset_when_no_rule_that_ran_sets_it.
+
+(*     non-vacuity: a rule that sets the tag and runs does leave it set *)
+Theorem C14_tag_is_set_by_a_rule_that_sets_it :
+  final_stop (hand EExecuteWithStopTagDirect)
+             (mkCfg [mkER "a" 9 false true true (Some 1%Z); mkER "b" 5 false true false (Some 2%Z)] true 0 0 [] [] false None) = true.
+Proof. vm_compute. reflexivity. Qed.
+Print Assumptions C14_tag_is_set_by_a_rule_that_sets_it.
